@@ -147,23 +147,35 @@ Proof.
       exists Stable; cbn; rewrite Ety; repeat split; auto 6.
 Qed.
 
-Definition pre_error (e : string) : Prop :=
-  e = EInvalidState \/ e = EInvalidModification \/ e = EParse \/ e = EType \/ e = EOperation.
+(* raised before setDescription is reached, or by setDescription itself *)
+Definition pre_classes : list string :=
+  [EInvalidState; EInvalidModification; EParse; EType; EOperation;
+   ENoMid; ECandidate; ENoUfrag; ENoPwd; ENoFingerprint; EBadFingerprint].
+Definition pre_error (e : string) : Prop := In e pre_classes.
+Ltac in_classes := cbn; auto 20.
 
-Lemma set_description_err r n d op n' e :
-  set_description r n d op = (n', Some e) -> n' = n /\ pre_error e.
+Definition sd_error (e : string) : Prop :=
+  e = EInvalidState \/ e = EInvalidModification \/ e = EParse \/ e = EType \/ e = EOperation.
+Lemma sd_error_pre e : sd_error e -> pre_error e.
 Proof.
-  unfold set_description, pre_error.
-  destruct (closed n); [intro H; inversion H; auto|].
+  unfold sd_error, pre_error; intros H.
+  repeat match goal with H : _ \/ _ |- _ => destruct H end; subst; in_classes.
+Qed.
+
+Lemma set_description_err_sd r n d op n' e :
+  set_description r n d op = (n', Some e) -> n' = n /\ sd_error e.
+Proof.
+  unfold set_description. fold (sd_error e).
+  destruct (closed n); [intro H; inversion H; unfold sd_error; auto|].
   assert (Hfin : forall nn res x,
              (match snd res with
               | None => (commit nn (fst res), @None string)
               | Some e0 => (n, Some e0)
               end) = (n', Some e) ->
-             res = chk r (st n) x op (d_ty d) -> n' = n /\ pre_error e).
+             res = chk r (st n) x op (d_ty d) -> n' = n /\ sd_error e).
   { intros nn [s [e0|]] x Hm Hr; cbn in Hm; [|discriminate].
-    inversion Hm; subst. symmetry in Hr. apply chk_err in Hr. unfold pre_error; auto. }
-  unfold pre_error in Hfin.
+    inversion Hm; subst. symmetry in Hr. apply chk_err in Hr. unfold sd_error; auto. }
+  unfold sd_error in *.
   destruct op.
   1,4: intro H; destruct (d_ty d); inversion H; auto 6.
   all: destruct (d_ty d) eqn:Ety; cbn; intro H; try (inversion H; auto 6; fail).
@@ -171,16 +183,37 @@ Proof.
   all: eapply Hfin; [exact H | first [reflexivity | rewrite Ety; reflexivity]].
 Qed.
 
+Lemma set_description_err r n d op n' e :
+  set_description r n d op = (n', Some e) -> n' = n /\ pre_error e.
+Proof.
+  intro H. apply set_description_err_sd in H. destruct H as [A B].
+  split; [exact A | exact (sd_error_pre e B)].
+Qed.
+
 (* ---------- SetLocalDescription / SetRemoteDescription ---------- *)
 
-Definition post_error (e : string) : Prop :=
-  e = ECodec \/ e = ENoMid \/ e = ECandidate \/ e = ENoUfrag \/ e = ENoPwd \/
-  e = ENoFingerprint \/ e = EBadFingerprint \/ e = ESend.
+(* raised after setDescription has stored the new state *)
+Definition post_classes : list string := [ECodec; EStop; EAddCand; ESend; EGather].
+Definition post_error (e : string) : Prop := In e post_classes.
 
 Lemma pre_post_disjoint e : pre_error e -> post_error e -> False.
 Proof.
-  unfold pre_error, post_error; intros H1 H2.
-  repeat match goal with H : _ \/ _ |- _ => destruct H end; subst; discriminate.
+  unfold pre_error, post_error; cbn; intros H1 H2.
+  repeat match goal with H : _ \/ _ |- _ => destruct H end; subst; try discriminate; auto.
+Qed.
+
+Lemma remote_validate_pre i d e : remote_validate i d = Some e -> pre_error e.
+Proof.
+  unfold remote_validate, pre_error.
+  repeat match goal with |- context [if ?c then _ else _] => destruct c end;
+    intro H; inversion H; in_classes.
+Qed.
+
+Lemma remote_after_post d e : remote_after d = Some e -> post_error e.
+Proof.
+  unfold remote_after, post_error.
+  repeat match goal with |- context [if ?c then _ else _] => destruct c end;
+    intro H; inversion H; in_classes.
 Qed.
 
 (* what SetLocalDescription hands to setDescription (JSEP 5.4 substitution) *)
@@ -203,10 +236,10 @@ Lemma set_local_cases r n d n' res :
   set_local r n d = (n', res) ->
   (n' = n /\ exists e, res = Err e /\ pre_error e) \/
   (set_description r n (subst_local n d) SetLocal = (n', None) /\
-   (res = Ok tt \/ res = Err ESend)).
+   (res = Ok tt \/ res = Err ESend \/ res = Err EGather)).
 Proof.
-  unfold set_local, pre_error.
-  destruct (closed n) eqn:Ec; [intro H; inversion H; left; eauto 8|].
+  unfold set_local.
+  destruct (closed n) eqn:Ec; [intro H; inversion H; left; split; [reflexivity|]; eexists; split; [reflexivity | in_classes]|].
   set (sub := if txt_is_empty (d_txt d) then _ else Ok d).
   assert (Hsub : (exists e, sub = Err e /\ e = EInvalidModification) \/
                  sub = Ok (subst_local n d)).
@@ -215,21 +248,23 @@ Proof.
       try (right; reflexivity).
     destruct (r_empty_rb r); [right; reflexivity | left; eexists; split; reflexivity]. }
   destruct Hsub as [[e [Hs He]] | Hs]; rewrite Hs.
-  - intro H; inversion H; subst. left; eauto 8.
+  - intro H; inversion H; subst. left; split; [reflexivity|]; eexists; split; [reflexivity | in_classes].
   - set (d1 := subst_local n d).
     destruct (parses (t_fl (d_txt d1))); cbn.
-    2:{ intro H; inversion H; left; eauto 8. }
+    2:{ intro H; inversion H; left; split; [reflexivity|]; eexists; split; [reflexivity | in_classes]. }
     destruct (set_description r n d1 SetLocal) as [n1 [e|]] eqn:Esd.
     + intro H; inversion H; subst. apply set_description_err in Esd. left.
       destruct Esd as [_ Hp]. split; [reflexivity|]. exists e; split; [reflexivity | exact Hp].
     + intro H. right.
       destruct (r_empty_rb r && sdptype_eqb (d_ty d1) Rollback).
       { inversion H; subst; auto. }
-      destruct (remote_description n1).
-      * destruct (sdptype_eqb (d_ty d1) Answer && negb (send_ok (t_fl (d_txt d1))));
-          inversion H; subst; auto.
-      * inversion H; subst; auto.
+      repeat match type of H with
+             | (if ?c then _ else _) = _ => destruct c
+             end; inversion H; subst; auto.
 Qed.
+
+Lemma local_post e : e = ESend \/ e = EGather -> post_error e.
+Proof. intros [H | H]; subst; unfold post_error; in_classes. Qed.
 
 Lemma set_remote_cases r n d n' res :
   set_remote r n d = (n', res) ->
@@ -237,17 +272,22 @@ Lemma set_remote_cases r n d n' res :
   (set_description r n d SetRemote = (n', None) /\
    (res = Ok tt \/ exists e, res = Err e /\ post_error e)).
 Proof.
-  unfold set_remote, pre_error, post_error.
-  destruct (closed n) eqn:Ec; [intro H; inversion H; left; eauto 8|].
+  unfold set_remote.
+  destruct (closed n) eqn:Ec; [intro H; inversion H; left; split; [reflexivity|]; eexists; split; [reflexivity | in_classes]|].
   destruct (parses (t_fl (d_txt d))); cbn.
-  2:{ intro H; inversion H; left; eauto 8. }
+  2:{ intro H; inversion H; left; split; [reflexivity|]; eexists; split; [reflexivity | in_classes]. }
+  set (skip := r_empty_rb r && sdptype_eqb (d_ty d) Rollback).
+  destruct (if skip then None else remote_validate _ d) as [e|] eqn:Ev.
+  { intro H; inversion H; subst. left. split; [reflexivity|]. exists e; split; [reflexivity|].
+    destruct skip; [discriminate|]. eapply remote_validate_pre; exact Ev. }
   destruct (set_description r n d SetRemote) as [n1 [e|]] eqn:Esd.
   - intro H; inversion H; subst. apply set_description_err in Esd. left.
     destruct Esd as [_ Hp]. split; [reflexivity|]. exists e; split; [reflexivity | exact Hp].
   - intro H. right.
-    repeat match type of H with
-           | (if ?c then _ else _) = _ => destruct c
-           end; inversion H; subst; split; try reflexivity; eauto 12.
+    destruct (if skip then None else remote_after d) as [e|] eqn:Ea; inversion H; subst.
+    + split; [reflexivity|]. right. exists e; split; [reflexivity|].
+      destruct skip; [discriminate|]. eapply remote_after_post; exact Ea.
+    + auto.
 Qed.
 
 (* ---------- consequences used by the properties ---------- *)
